@@ -152,12 +152,21 @@ func vpC03_O1() {
 	}
 	collude := vpBool("collude")
 	if collude {
-		// the holders equalise the responses: second response for base R_0 in the commitment proof
-		vpAssume(k2 == 1 && !same)
-		pu := pl[1].(*ProofU)
+		vpAssume(!same)
 		diff := new(big.Int).Sub(s2, s1)
-		pu.MUserResponses[0] = new(big.Int).Mul(c, diff)
-		pu.SResponse = new(big.Int).Set(pl[0].SecretKeyResponse())
+		if k2 == 1 {
+			// the holders equalise the responses: second response for base R_0 in the commitment proof
+			pu := pl[1].(*ProofU)
+			pu.MUserResponses[0] = new(big.Int).Mul(c, diff)
+			pu.SResponse = new(big.Int).Set(pl[0].SecretKeyResponse())
+		} else {
+			// ... or split the secret key of the disclosure proof into a disclosed part s2-s1
+			// and a hidden remainder that equals the other holder's secret
+			vpAssume(diff.Sign() > 0)
+			pd := pl[1].(*ProofD)
+			pd.ADisclosed[0] = diff
+			pd.AResponses[0] = new(big.Int).Sub(pd.AResponses[0], new(big.Int).Mul(c, vpEff(diff, pk)))
+		}
 	}
 	ok := pl.Verify(keys, ctx, nonce, false, labels)
 	if same || !sameLabel {
